@@ -51,6 +51,6 @@ theorem segment_remove : segRemoveAssigns =
 theorem get_index : getIndexOps =
     ["NewHybridSearchIndex(vecIdx, txtIdx, metaIdx)", "os.Open(s.hybridPath)", "os.Open(s.vectorPath)",
      "os.Open(s.textPath)", "os.Open(s.metadataPath)", "readerFrom.ReadFrom(combinedReader)",
-     "s.cachedIndex = idx"] := by decide
+     "io.Copy(io.Discard, combinedReader)", "s.cachedIndex = idx"] := by decide
 
 end CometGen.Obligations.C08
